@@ -408,6 +408,12 @@ theorem enum_rejected_only_out_of_range (ms : List Member) (hw : membersWf ms = 
     ∃ vs : List Int, EnumSeq none ms vs ∧ ¬ AllIn (-(2 ^ 31)) (2 ^ 31 - 1) vs ∧ ¬ AllIn 0 (2 ^ 32 - 1) vs :=
   defineEnum_cannotDeduce ms hw lo hi h
 
+/-- the overflow rejection (`enum value overflows the type of the previous value`) is raised only when the previous
+    enumerator already has the largest value of its own type: `2^127-1` for an untyped literal, `INT_MAX`, `UINT_MAX` -/
+theorem enum_overflow_only_at_type_max (i j : Nat) (l : Constant) (h : nextValue i l = .error (.overflow j)) :
+    j = i ∧ ∃ v, (l = .intLit v ∧ 2 ^ 127 - 1 ≤ v) ∨ (l = .int32 v ∧ 2 ^ 31 - 1 ≤ v) ∨ (l = .uint32 v ∧ 2 ^ 32 - 1 ≤ v) :=
+  nextValue_overflow h
+
 /-- **An enum definition never panics**: not when the successor of `INT_MAX` / `UINT_MAX` / the largest literal is
     needed (that is `EnumValueOverflow`), not on a `bool` enumerator, not in the range computation or the conversion
     to the underlying type.  Hypotheses (`membersOk`, executable, evaluated by the model on every definition of the
